@@ -30,15 +30,12 @@ pub fn time_with_timezone(_: &SmartCalcConfig, _: &Tokinizer, fields: &BTreeMap<
         let (time, current_offset) = get_time("time", fields).unwrap();
         let (target_timezone, target_offset) = get_timezone("timezone", fields).unwrap();
 
-        // To source timezone
-        let timezone_offset = FixedOffset::east(current_offset.offset * 60);
-        let date_with_timezone = timezone_offset.from_utc_datetime(&time);
-        let new_time = chrono::Local.from_local_datetime(&date_with_timezone.naive_local()).unwrap().naive_local();
-
-        // To target timezone
-        let timezone_offset = FixedOffset::east(target_offset * 60);
-        let date_with_timezone = timezone_offset.from_local_datetime(&new_time).unwrap();
-        let new_time = chrono::Utc.from_utc_datetime(&date_with_timezone.naive_utc()).naive_utc();
+        /* The wall clock time of the source zone is re-anchored in the target zone */
+        let wall_time = FixedOffset::east(current_offset.offset * 60).from_utc_datetime(&time).naive_local();
+        let new_time = match wall_time.checked_sub_signed(chrono::Duration::minutes(target_offset as i64)) {
+            Some(new_time) => new_time,
+            None => return Err("Time is out of range".to_string())
+        };
 
         return Ok(TokenType::Time(new_time, TimeOffset { 
             name: target_timezone.to_uppercase(),
